@@ -118,12 +118,12 @@ static void bind_step() {
 
   uint32_t to_sid = nondet_bool() ? 1 : 0; uint64_t to_off = nondet_u64();
   if (INVALID) {
-    // invalid label id / invalid section id (any value beyond the tables): refused, nothing changes. Kept in a harness of its own
-    // with a small unwinding bound: with a symbolic id the symbolic executor cannot see that the fixup loop is not entered.
-    bool bad_label = nondet_bool();
-    uint32_t bad_id = nondet_u32(), bad_sid = nondet_u32();
-    V_ASSUME(bad_id >= 2 && bad_sid >= 2);
-    Error err = bad_label ? c->bind_label(Label(bad_id), to_sid, to_off) : c->bind_label(Label(label_id), bad_sid, to_off);
+    // invalid label id / invalid section id: refused, nothing changes.
+    // ids just beyond the tables and the reserved invalid id, each in a call of its own (concrete for the symbolic executor)
+    bool bad_label = nondet_bool(); uint32_t sel = nondet_u8() & 3;
+    Error err;
+    if (bad_label) err = sel == 0 ? c->bind_label(Label(2), to_sid, to_off) : sel == 1 ? c->bind_label(Label(3), to_sid, to_off) : sel == 2 ? c->bind_label(Label(0x80000000u), to_sid, to_off) : c->bind_label(Label(Globals::kInvalidId), to_sid, to_off);
+    else err = sel == 0 ? c->bind_label(Label(label_id), 2, to_off) : sel == 1 ? c->bind_label(Label(label_id), 3, to_off) : sel == 2 ? c->bind_label(Label(label_id), 0x80000000u, to_off) : c->bind_label(Label(label_id), Globals::kInvalidId, to_off);
     verif_observe(uint64_t(err));
     V_ASSERT(err == (bad_label ? Error::kInvalidLabel : Error::kInvalidSection), "bind with an invalid label or section id is refused");
     V_ASSERT(!label_tab[label_id].is_bound() && label_tab[label_id]._get_fixups() == (K ? &fx[0] : nullptr) && c->_unresolved_fixup_count == count0, "refused bind leaves label and counters unchanged");
